@@ -299,6 +299,121 @@ theorem unquote_quote_idem (s : Str) : quote (quote s) = quote s := by
     have hl : (['"'] ++ s ++ ['"']).getLast? = some '"' := by simp [List.getLast?_cons, List.getLast?_append]
     simp only [hlen, hh, hl, decide_true, beq_self_eq_true, Bool.and_self, Bool.or_true, Bool.true_and, if_true]
 
+/-! ### string defaults ("a string stays a string") -/
+
+/-- **Domain of string defaults** (decidable): non-empty text of plain characters (no `.`, no bracket), without quote
+    characters, backticks or parentheses — what the emitter then wraps in double quotes. -/
+def GoodStr (s : Str) : Prop :=
+  s ≠ [] ∧ s.all plainChar = true ∧ '"' ∉ s ∧ '\'' ∉ s ∧ '(' ∉ lower s
+
+/-- the emitter's rendering of such a default under a type that needs quoting: `"<s>"` -/
+theorem quote_good (s : Str) (h : GoodStr s) : quote s = '"' :: (s ++ ['"']) := by
+  unfold quote
+  have h1 : s.isEmpty = false := by cases s with | nil => exact absurd rfl h.1 | cons _ _ => rfl
+  have h2 : (decide (s.length > 1) && s.head? == s.getLast? && (s.head? == some '\'' || s.head? == some '"')) = false := by
+    cases hb : (decide (s.length > 1) && s.head? == s.getLast? && (s.head? == some '\'' || s.head? == some '"')) with
+    | false => rfl
+    | true =>
+      simp only [Bool.and_eq_true, decide_eq_true_eq, beq_iff_eq, Bool.or_eq_true] at hb
+      rcases hb.2 with hq | hq
+      · exact absurd (List.mem_of_mem_head? hq) h.2.2.2.1
+      · exact absurd (List.mem_of_mem_head? hq) h.2.2.1
+  simp only [h1, h2, Bool.or_self, Bool.false_eq_true, if_false]
+  rfl
+
+/-- the value cascade leaves a double-quoted text as a string (it is neither a number, a boolean, nor inf/nan) -/
+theorem parse_quoted_text (t : Str) : parseDefaultText ('"' :: t) none = .ok (.str ('"' :: t)) := by
+  unfold parseDefaultText
+  have hd : isdecimal ('"' :: t) = false := by
+    unfold isdecimal
+    have : isAsciiDigit '"' = false := by decide
+    simp [this]
+  have hall : ('"' :: t).all (fun c => isAsciiDigit c || c == '.' || c == 'e' || c == 'E' || c == '-' || c == '+' || c == '_') = false := by
+    have : (isAsciiDigit '"' || ('"' : Char) == '.' || ('"' : Char) == 'e' || ('"' : Char) == 'E' || ('"' : Char) == '-' || ('"' : Char) == '+' || ('"' : Char) == '_') = false := by decide
+    rw [List.all_cons, this, Bool.false_and]
+  have hft : isFloatText ('"' :: t) = false := by
+    unfold isFloatText
+    have h1 : (some ('"' : Char) == some '-' || some ('"' : Char) == some '+') = false := by decide
+    have h2 : isAsciiDigit '"' = false := by decide
+    simp only [List.head?_cons, h1, Bool.false_eq_true, if_false, List.takeWhile_cons, h2, List.isEmpty_nil, Bool.not_true,
+      Bool.false_and]
+  have hne1 : (('"' :: t) == sTrue) = false := by
+    cases hb : (('"' :: t) == sTrue) with
+    | false => rfl
+    | true => have := beq_iff_eq.mp hb; simp [sTrue] at this
+  have hne2 : (('"' :: t) == sFalse) = false := by
+    cases hb : (('"' :: t) == sFalse) with
+    | false => rfl
+    | true => have := beq_iff_eq.mp hb; simp [sFalse] at this
+  have hlow : ∀ w : Str, w.head? ≠ some '"' → (lower ('"' :: t) == w) = false := by
+    intro w hw
+    cases hb : (lower ('"' :: t) == w) with
+    | false => rfl
+    | true =>
+      have e := beq_iff_eq.mp hb
+      have : (lower ('"' :: t)).head? = some '"' := by
+        unfold lower; simp only [List.map_cons, List.head?_cons]; congr 1
+      rw [e] at this; exact absurd this hw
+  have hs1 : (some ('"' : Char) == some '-' || some ('"' : Char) == some '+') = false := by decide
+  have i1 := hlow "inf".toList (by decide)
+  have i2 := hlow "nan".toList (by decide)
+  have i3 := hlow "infinity".toList (by decide)
+  have i4 := hlow "-inf".toList (by decide)
+  have i5 := hlow "+inf".toList (by decide)
+  simp only [Bool.false_and, Bool.false_eq_true, if_false, hd, List.head?_cons, hs1, hne1, hne2, hft, hall, Bool.and_false,
+    i1, i2, i3, i4, i5, Bool.or_self]
+
+/-- **Default ↔ prose, strings** ("a string stays a string"): the quoted text is read back verbatim, and removing the
+    quotes (`unquote`, done by `interpolate_defaults`) gives the original string. -/
+theorem extract_str_roundtrip (b s : Str) (hb : GoodBase b) (hs : GoodStr s) :
+    extractDefault (b ++ defaultsTo ++ quote s) none true = .ok (b ++ defaultsTo ++ quote s, some (.str (quote s)))
+      ∧ unquote (quote s) = s := by
+  have hq := quote_good s hs
+  refine ⟨?_, ?_⟩
+  · rw [hq]
+    unfold extractDefault
+    have hp : '(' ∉ lower (b ++ defaultsTo ++ '"' :: (s ++ ['"'])) := by
+      rw [lower_append, lower_append]
+      intro hm
+      simp only [List.mem_append] at hm
+      rcases hm with (h1 | h2) | h3
+      · exact hb.1 h1
+      · revert h2; rw [lower_defaultsTo]; decide
+      · have : lower ('"' :: (s ++ ['"'])) = '"' :: (lower s ++ ['"']) := by
+          unfold lower; simp only [List.map_cons, List.map_append, List.map_nil]; rfl
+        rw [this] at h3
+        simp only [List.mem_cons, List.mem_append, List.mem_singleton] at h3
+        rcases h3 with h | h | h
+        · revert h; decide
+        · exact hs.2.2.2.2 h
+        · rcases h with h | h
+          · revert h; decide
+          · cases h
+    rw [hasParenAnnounce_false _ hp]
+    simp only [Bool.false_eq_true, if_false]
+    rw [locate_emitted b _ hb]
+    have hplain : ('"' :: (s ++ ['"'])).all plainChar = true := by
+      simp only [List.all_cons, List.all_append, List.all_nil, Bool.and_true, hs.2.1]
+      decide
+    have hstrip : stripChars ('"' :: (s ++ ['"'])) [' ', '\t', '`'] = '"' :: (s ++ ['"']) := by
+      unfold stripChars lstripChars rstripChars
+      have hm : ([' ', '\t', '`'].contains '"') = false := by decide
+      simp only [List.dropWhile_cons, hm, Bool.false_eq_true, if_false]
+      have : ('"' :: (s ++ ['"'])).reverse = '"' :: (s.reverse ++ ['"']) := by simp
+      rw [this]
+      simp only [List.dropWhile_cons, hm, Bool.false_eq_true, if_false]
+      simp
+    simp only [drop_emitted, takeDefault_plain 0 _ hplain, hstrip, parse_quoted_text, if_true]
+  · exact quote_unquote s hs.1 (by
+      intro h
+      rcases h.2.2 with hq' | hq'
+      · exact hs.2.2.2.1 (List.mem_of_mem_head? hq')
+      · exact hs.2.2.1 (List.mem_of_mem_head? hq'))
+
+/-- non-vacuity of the string domain -/
+example : GoodStr ['b', 'a', 'r', ' ', 'b', 'a', 'z'] := by
+  refine ⟨by decide, by decide, by decide, by decide, by decide⟩
+
 /-! ### non-vacuity -/
 example : GoodBase ['t', 'h', 'e', ' ', 'x', '.'] := by
   constructor
